@@ -210,6 +210,14 @@ func TwinBatch(a *Sess, op *Op, mode string) bool {
 		a.fail("twin.state", "%s (%s twin): %s", op.K, mode, d)
 		return false
 	}
+	// the entity pool is part of the observable state: it decides every handle issued from now on
+	// (only when both worlds used the same form of the filter: cached and original lists may order tables differently,
+	// and a batch removal recycles ids in iteration order)
+	da, db := a.W.DumpEntities(), b.W.DumpEntities()
+	if mode == "singles" && (fmt.Sprint(da.Entities) != fmt.Sprint(db.Entities) || da.Next != db.Next || da.Available != db.Available) {
+		a.fail("twin.pool", "%s (%s twin): the entity pools differ afterwards (future handles would differ): next %d/%d available %d/%d entities %v vs %v", op.K, mode, da.Next, db.Next, da.Available, db.Available, da.Entities, db.Entities)
+		return false
+	}
 	a.Cov.N["twin_compares"]++
 	return true
 }
